@@ -15,4 +15,8 @@ for f in p.BadAppend p.BadIndex p.BadLoop; do
   out=$(run $f)
   if echo "$out" | grep -q "^FAIL.* sat "; then echo "ok   $f refuted"; else echo "UNIT-FAIL $f not refuted"; rc=1; fi
 done
+for f in p.SetB p.SetPA p.SetViaCallee; do
+  out=$(run $f)
+  if echo "$out" | grep -q "^FAIL frame:"; then echo "ok   $f frame violation reported"; else echo "UNIT-FAIL $f frame violation missed"; rc=1; fi
+done
 exit $rc
